@@ -140,6 +140,52 @@ def r3_both_passes(ctx, rule="C14.R3"):
     ctx.require(rule, 4)
 
 
+def r5_stored_constant_is_the_converted_value(ctx, rule="C14.R5"):
+    """`CONST c<suffix> = e` stores e converted to the suffix type: in both passes that keep a
+    constant table the value that is stored is the *result* of the cast to the name's qualifier, not
+    the value that went into the cast (a later constant that uses c would see another type/value
+    than the run time does)."""
+    prog = ctx.prog
+    fs = [f for f in prog.fns.values() if f.name == "cast_resolved_value_to_declared_type" and f.crate == "rusty_linter"]
+    if len(fs) != 1:
+        raise CheckError("anchor ConstantMap::cast_resolved_value_to_declared_type")
+    fn = fs[0]
+    body = fn.body
+    pv = mir.Prov(body)
+    casts = [(b, t) for b, t in body.calls() if mir.callee_path(t).split("::")[-1] == "cast"]
+    if len(casts) != 1:
+        raise CheckError("%s: expected one cast call, found %d" % (fn.name, len(casts)))
+    cb, ct = casts[0]
+    # every definition of the return value that lies on a path through the cast derives from its result
+    bad = []
+    n_defs = 0
+    after_cast = body.reachable(cb)
+    is_cast = lambda x: x[0] == "call" and x[1].split("::")[-1] == "cast"
+    for b, i, st in body.defs().get(0, []):
+        if body.is_cleanup(b) or b not in after_cast:
+            continue
+        n_defs += 1
+        if i == "T":
+            o = mir.Origin(("call", st.get("cpath") or "", tuple(pv.of_operand(a) for a in st["args"])))
+            ok = any(mir.origin_mentions(pv.of_operand(a), is_cast) for a in st["args"]) or is_cast(o)
+            what = "%s(..)" % (st.get("cpath") or "").split("::")[-1]
+        else:
+            r = st["r"]
+            ops = r.get("ops") or ([r["o"]] if "o" in r else [])
+            ok = any(mir.origin_mentions(pv.of_operand(a), is_cast) for a in ops)
+            what = "%s" % ", ".join(mir.short_origin(pv.of_operand(a)) for a in ops)
+        if not ok:
+            bad.append("line %s: returns %s" % (st.get("ln"), what))
+    n_ok = n_defs
+    direct = False
+    ctx.decide(not bad and (n_ok > 0 or direct), rule, rule + ":pre-linter-constant-map", fn.loc,
+               "the value returned after the cast derives from the cast result",
+               "after casting to the declared type the function returns %s - the unconverted value: "
+               "`CONST A%% = 2.5 : CONST B = 1 / (A - 2.5)` is folded with A = 2.5 and rejected although the run "
+               "time computes with A = 3" % (bad or "a value that does not come from the cast"))
+    ctx.require(rule, 1)
+
+
 def run(ctx):
     common.install(ctx)
     T = ot.OpTables(ctx.prog)
@@ -148,3 +194,4 @@ def run(ctx):
     r3_both_passes(ctx)
     from . import c13
     c13.r5_local_before_global(ctx, "C14.R4")
+    r5_stored_constant_is_the_converted_value(ctx)
